@@ -159,7 +159,11 @@ class Transmission(WithObservers, LoggingTrait):
         self.new_transmission(TransmissionTypes.Idle)
 
     def end_data_transmission(self):
-        if self.finished or not self.header or self.type == TransmissionTypes.Idle:
+        if (
+            self.finished
+            or not self.header
+            or self.type != TransmissionTypes.DataTransmission
+        ):
             self.log_info(
                 f"end_data_transmission without effect is_finished:{self.finished} header:{type(self.header)} transmission_type:{self.type}"
             )
